@@ -115,6 +115,29 @@ func (g *Gen) provSeq() []string {
 	return r
 }
 
+// paramOp: governance changes one or two module parameters while bindings and contexts exist
+func (g *Gen) paramOp(st *State) Ev {
+	p := st.Params
+	p.Lax = false
+	for i := 0; i < 1+g.R.Intn(2); i++ {
+		switch g.R.Intn(6) {
+		case 0:
+			p.MaxTimeout = g.in(1, 2, 3, p.MaxTimeout+2)
+		case 1:
+			p.Slash = g.in(0, 1, 100, 500, 1000)
+		case 2:
+			p.Tax = g.in(0, 50, 100, 333, 999)
+		case 3:
+			p.MinDeposit = g.in(1, p.MinDeposit/2+1, p.MinDeposit+3, p.MinDeposit*2)
+		case 4:
+			p.Multiple = g.in(1, 2, p.Multiple+1)
+		default:
+			p.RefundDelay = g.in(2, 3, 4, p.RefundDelay+2)
+		}
+	}
+	return Ev{Name: "SetParams", RParams: &p}
+}
+
 // Next produces the next operation given the current abstract state
 func (g *Gen) Next(st *State) Ev {
 	r := g.R.Float64()
@@ -144,8 +167,10 @@ func (g *Gen) Next(st *State) Ev {
 		return Ev{Name: "SetWithdrawAddr", Signer: signer, Addr: g.pick([]string{"w1", "c1", "o1", "o2"})}
 	case r < 0.90:
 		return Ev{Name: "BankSend", Signer: g.pick(g.All), To: g.pick(g.All), Amount: g.in(1, 2, 5, 20)}
-	case r < 0.95:
+	case r < 0.94:
 		return g.modOp(st)
+	case r < 0.955:
+		return g.paramOp(st)
 	default:
 		return g.shapeOp(st)
 	}
